@@ -125,6 +125,15 @@ CLAIMED = {
              "conversion on non-terrain paths; UpdateSkinPartitions follows every shape replacement; each conversion loop is followed "
              "by pruning. Geometry/weight/colour preservation and there-and-back equivalence are numeric and NOT decided.",
         note="partition index conventions (bMappedIndices), vertex data arithmetic and validity of the written file are not decided"),
+    "C13": dict(
+        cat="other", ref="DESIGN.md §12.6 (C13 thin partial)",
+        technique="static analysis: sibling agreement of Set<X>ForShape / Get<X>ForShape pairs on per-vertex storage fields (read/write events by summary composition through the helper functions)",
+        text="Thin partial, added during the build: for each of the seven setter/getter pairs of NifFile, every per-vertex storage "
+             "field the getter reads (NiGeometryData arrays, packed BSVertexData fields, through the raw-array refresh helpers) is a "
+             "field the setter writes, for both storage kinds. It is a necessary condition of 'what is written is what is read "
+             "back' and nothing more: bit-exactness, half-float tolerance, triangle order, count preservation and save/reload "
+             "equality quantify over runtime arrays and are NOT decided by this check.",
+        note="only the storage-field agreement clause is decided; every numeric clause of C13 is outside static reach"),
     "C14": dict(
         cat="other", ref="DESIGN.md §5 C14",
         technique="static analysis: taint/effect analysis of the clone functions (source-derived values vs transitive receiver mod-sets), clone=>re-link pairing, enumerator coverage of CloneChildren",
@@ -165,8 +174,6 @@ CLAIMED = {
 }
 
 NOT_APPLICABLE = {
-    "C13": "static analysis cannot decide it: every clause is equality/tolerance of runtime vertex, normal, colour and triangle arrays "
-           "across versions; the only structural candidate (size guards on setters) concerns inputs outside the property's quantifier",
     "C17": "static analysis cannot decide it: segment/partition renumbering, stable sort and contiguous range tables are value-level "
            "algorithm correctness over runtime arrays",
     "C18": "static analysis cannot decide it: functional equivalence of index-remapping/strip templates with their mathematical "
